@@ -29,6 +29,8 @@ package sorted_set
 
 //@ func NewSortedSet props C17,C13
 //@   ensures isfresh: fresh(result) && fresh(result.members)
+//@   ensures allocd: allocated(result) && allocated(result.members)
+//@   ensures empty: len(members) == 0 ==> len(result.members) == 0
 //@   ensures wf: inv(result, alloc) && inv(result, exists)
 //@   ensures domain: forall v Value :: has(result.members, v) <==> (exists i int :: 0 <= i && i < len(members) && members[i].Value == v)
 //@   ensures scores: forall v Value :: has(result.members, v) ==> (exists i int :: 0 <= i && i < len(members) && members[i].Value == v && members[i].Score == result.members[v].Score)
@@ -37,6 +39,7 @@ package sorted_set
 //@   loop 0
 //@     invariant (forall i int, j int :: 0 <= i && i < j && j < len(members) ==> members[i].Value != members[j].Value) ==> (forall i int :: 0 <= i && i <= rangeindex ==> s.members[members[i].Value].Score == members[i].Score)
 //@     invariant -1 <= rangeindex && rangeindex < len(members) && fresh(s) && fresh(s.members) && inv(s, alloc) && inv(s, exists)
+//@     invariant rangeindex == -1 ==> len(s.members) == 0
 //@     invariant forall v Value :: has(s.members, v) <==> (exists i int :: 0 <= i && i <= rangeindex && members[i].Value == v)
 //@     invariant forall v Value :: has(s.members, v) ==> (exists i int :: 0 <= i && i <= rangeindex && members[i].Value == v && members[i].Score == s.members[v].Score)
 
@@ -147,6 +150,7 @@ package sorted_set
 //@   preserves alloc, exists
 //@   ensures {C17} plain-members: updatePolicy == nil && comparison == nil && changed == nil && incr == nil ==> result1 == nil && (forall i int :: 0 <= i && i < len(members) ==> has(set.members, members[i].Value))
 //@   ensures {C17} plain-others: updatePolicy == nil && comparison == nil && changed == nil && incr == nil ==> (forall v Value :: !(exists i int :: 0 <= i && i < len(members) && members[i].Value == v) ==> (has(set.members, v) <==> old(has(set.members, v))) && set.members[v] == old(set.members[v]))
+//@   ensures {C17} plain-card: updatePolicy == nil && comparison == nil && changed == nil && incr == nil && len(members) == 1 ==> len(set.members) == old(len(set.members)) + (old(has(set.members, members[0].Value)) ? 0 : 1)
 //@   ensures {C17} plain-last: updatePolicy == nil && comparison == nil && changed == nil && incr == nil && len(members) > 0 ==> set.members[members[len(members)-1].Value].Score == members[len(members)-1].Score
 //@   ensures {C17} nx-keeps: result1 == nil && updatePolicy != nil && lower(asstr(updatePolicy)) == "nx" ==> (forall v Value :: old(has(set.members, v)) ==> has(set.members, v) && set.members[v] == old(set.members[v]))
 //@   ensures {C17} xx-nonew: result1 == nil && updatePolicy != nil && lower(asstr(updatePolicy)) == "xx" ==> (forall v Value :: has(set.members, v) <==> old(has(set.members, v)))
@@ -165,6 +169,8 @@ package sorted_set
 //@   loop 1
 //@     invariant -1 <= rangeindex && rangeindex < len(members) && inv(set, alloc) && inv(set, exists) && set.members == old(set.members)
 //@     invariant lower(policy) != "nx" && lower(policy) != "xx" ==> (forall i int :: 0 <= i && i <= rangeindex ==> has(set.members, members[i].Value))
+//@     invariant rangeindex == -1 ==> len(set.members) == old(len(set.members))
+//@     invariant rangeindex == 0 && lower(policy) != "nx" && lower(policy) != "xx" ==> len(set.members) == old(len(set.members)) + (old(has(set.members, members[0].Value)) ? 0 : 1)
 //@     invariant lower(policy) != "nx" && lower(policy) != "xx" && lower(comp) != "lt" && lower(comp) != "gt" && rangeindex >= 0 ==> set.members[members[rangeindex].Value].Score == members[rangeindex].Score
 //@     invariant forall v Value :: !(exists i int :: 0 <= i && i <= rangeindex && members[i].Value == v) ==> (has(set.members, v) <==> old(has(set.members, v))) && set.members[v] == old(set.members[v])
 //@     invariant lower(policy) == "nx" ==> (forall v Value :: old(has(set.members, v)) ==> has(set.members, v) && set.members[v] == old(set.members[v]))
@@ -258,3 +264,31 @@ package sorted_set
 //@   ensures {C17} member-present: result1 == nil && onzset(params) ==> zval(params, zkey(params)) == old(zval(params, zkey(params))) && has(zmembers(params), Value(zarg(params, 3)))
 //@   ensures {C17} int-increment: result1 == nil && onzset(params) && isint(internal.adapt(zarg(params, 2))) ==> zmembers(params)[Value(zarg(params, 3))].Score == (old(has(zmembers(params), Value(params.Command[3]))) ? old(zmembers(params)[Value(params.Command[3])].Score) : 0.0) + float64(asint(internal.adapt(zarg(params, 2))))
 //@   ensures {C17} others: result1 == nil && onzset(params) ==> (forall v Value :: v != Value(zarg(params, 3)) ==> (has(zmembers(params), v) <==> old(has(zmembers(params), v))) && zmembers(params)[v] == old(zmembers(params)[v]))
+
+// Pop(count, "min"|"max"): moves min(count, size) members with the lowest (highest) scores into a new sorted set.
+//@ spec zmin(a int, b int) int = a < b ? a : b
+//@ func (*SortedSet).Pop props C17,C13
+//@   preserves alloc, exists
+//@   ensures {C17} badpolicy: lower(policy) != "min" && lower(policy) != "max" ==> result1 != nil
+//@   ensures {C17} negative: count < 0 ==> result1 != nil
+//@   ensures {C17} unchanged-on-error: result1 != nil ==> (forall v Value :: (has(set.members, v) <==> old(has(set.members, v))) && set.members[v] == old(set.members[v]))
+//@   ensures {C17,C13} isfresh: result1 == nil ==> fresh(result0) && fresh(result0.members) && inv(result0, alloc) && inv(result0, exists)
+//@   ensures {C17} size: result1 == nil ==> len(result0.members) == zmin(count, old(len(set.members))) && len(set.members) == old(len(set.members)) - zmin(count, old(len(set.members)))
+//@   ensures {C17} moved: result1 == nil ==> (forall v Value :: has(result0.members, v) <==> (old(has(set.members, v)) && !has(set.members, v))) && (forall v Value :: has(result0.members, v) ==> result0.members[v].Score == old(set.members[v].Score))
+//@   ensures {C17} kept: result1 == nil ==> (forall v Value :: has(set.members, v) ==> old(has(set.members, v)) && set.members[v] == old(set.members[v]))
+//@   ensures {C17} lowest: result1 == nil && lower(policy) == "min" ==> (forall v Value, w Value :: has(result0.members, v) && has(set.members, w) ==> result0.members[v].Score <= set.members[w].Score)
+//@   ensures {C17} highest: result1 == nil && lower(policy) == "max" ==> (forall v Value, w Value :: has(result0.members, v) && has(set.members, w) ==> result0.members[v].Score >= set.members[w].Score)
+//@   modifies set.members[*]
+//@   loop 0
+//@     invariant 0 <= i && i <= count && i <= len(members) && count > 0 && (lower(policy) == "min" || lower(policy) == "max") && inv(set, alloc) && inv(set, exists) && set.members == old(set.members)
+//@     invariant fresh(popped) && fresh(popped.members) && inv(popped, alloc) && inv(popped, exists) && allocated(popped) && allocated(popped.members) && (members == nil || fresh(members)) && allocated(members)
+//@     invariant len(members) == old(len(set.members)) && len(popped.members) == i && len(set.members) == old(len(set.members)) - i
+//@     invariant distinct: forall a int, b int :: 0 <= a && a < b && b < len(members) ==> members[a].Value != members[b].Value
+//@     invariant complete: forall v Value :: old(has(set.members, v)) <==> (exists a int :: 0 <= a && a < len(members) && members[a].Value == v)
+//@     invariant scores: forall a int, v Value :: 0 <= a && a < len(members) && members[a].Value == v ==> members[a].Score == old(set.members[v].Score)
+//@     invariant ordered: forall a int, b int :: 0 <= a && a < b && b < len(members) ==> (lower(policy) == "min" ? members[a].Score <= members[b].Score : members[a].Score >= members[b].Score)
+//@     invariant forall v Value :: has(popped.members, v) <==> (exists a int :: 0 <= a && a < i && members[a].Value == v)
+//@     invariant forall v Value :: has(popped.members, v) ==> popped.members[v].Score == old(set.members[v].Score)
+//@     invariant forall v Value :: has(set.members, v) <==> (old(has(set.members, v)) && !(exists a int :: 0 <= a && a < i && members[a].Value == v))
+//@     invariant forall v Value :: has(set.members, v) ==> set.members[v] == old(set.members[v])
+//@     invariant remaining: forall w Value :: has(set.members, w) ==> (exists b int :: i <= b && b < len(members) && members[b].Value == w)
